@@ -93,6 +93,9 @@ def ratfun(e, table=None, subst=None):
             return ("slice", _intern((rat_key(go(n.value)) if not isinstance(n.value, (ast.Name, ast.Attribute)) else ast.unparse(n.value), ast.unparse(n.slice))))
         if isinstance(n, ast.BinOp) and isinstance(n.op, ast.Pow):
             return ("pow", _intern((rat_key(go(n.left)), rat_key(go(n.right)))))
+        if isinstance(n, (ast.List, ast.Tuple)) and not any(isinstance(x, ast.Starred) for x in n.elts):
+            # a literal vector / row: element-wise normal forms (so `[1 - p**2, 2*p*q]` may be respelled inside)
+            return ("seq", _intern(tuple(rat_key(go(x)) for x in n.elts)))
         return ("atom", ast.unparse(n))
 
     def go(n):
